@@ -224,7 +224,7 @@ impl TraceFormat for JsFormat {
 				write!(
 					out,
 					"    at {} ({}:{}:{})",
-					desc, resolved_path, start_end[0].line, start_end[0].column,
+					desc, resolved_path, start_end[0].line, start_end[0].column.saturating_sub(1),
 				)?;
 			} else {
 				write!(out, "    during {desc}")?;
